@@ -221,6 +221,7 @@ func main() {
 	// ---- walk declarations -----------------------------------------------------------------
 	var crc []string
 	fingerprints := map[string]string{}
+	var receivers []string // (method, has a pointer receiver)
 	switchTables := map[string][]string{}
 	var tlsLits []string
 	var tlsStructs []tlsStruct
@@ -311,6 +312,10 @@ func main() {
 				sum := sha256.Sum256([]byte(norm))
 				fingerprints[name] = hex.EncodeToString(sum[:8])
 				fnames = append(fnames, name)
+				if dd.Recv != nil && len(dd.Recv.List) > 0 {
+					_, isPtr := dd.Recv.List[0].Type.(*ast.StarExpr)
+					receivers = append(receivers, fmt.Sprintf("(%s, %v)", leanStr(name), isPtr))
+				}
 				os.WriteFile(filepath.Join(normDir, strings.ReplaceAll(name, "/", "_")+".txt"), []byte(b.String()), 0o644)
 			}
 		}
@@ -322,6 +327,9 @@ func main() {
 		keys = append(keys, k)
 	}
 	sort.Strings(keys)
+	sort.Strings(receivers)
+	p("/-- every method with the kind of its receiver (true = pointer): a method with a VALUE receiver works on a\n    copy of the struct, so `mc.lock.Lock()` in it locks a copy of the mutex -/\n")
+	p("def receivers : List (String × Bool) := [\n  %s]\n\n", strings.Join(receivers, ",\n  "))
 	p("/-- fingerprint (first 64 bits of sha256 of the normalised source, comments and logging removed) per function -/\n")
 	for _, k := range keys {
 		p("def fp_%s : Nat := 0x%s\n", identOf(k), fingerprints[k])
